@@ -491,7 +491,12 @@ func (w *World) fireStallFaults() {
 				down = append(down, sv.Idx)
 			}
 		}
-		if len(down) > 0 && w.rng.IntN(10) < 7 {
+		if x := w.rng.IntN(10); x < 2 && !w.stallClosed {
+			// Close strikes while that goroutine is held up (once per run)
+			w.stallClosed = true
+			w.inject(&Fault{Kind: "close", Mgr: w.rng.IntN(len(w.mgrs)), K: 1})
+			w.faultsInc("close-after-stall")
+		} else if len(down) > 0 && x < 8 {
 			// a node comes back while the goroutine that was waiting for it is held up
 			w.inject(&Fault{Kind: "restart", Srv: down[w.rng.IntN(len(down))]})
 			w.faultsInc("restart-after-stall")
